@@ -42,12 +42,13 @@ Section Spec.
   Variable np_divmod : arr -> arr -> res (arr * arr).
   Variable np_un : npop -> arr -> res arr.
   Variable dtype_to_str : arr -> res nformat.
+  Variable np_empty : nformat -> arr.
 
   Notation heap := (heap arr nformat).
   Notation mkfield := (mkfield arr nformat).
   Notation outcome := (outcome arr nformat).
   Notation mkout := (mkout arr nformat).
-  Notation data_of := (data_of arr nformat).
+  Notation data_of := (data_of arr nformat np_empty).
 
   (* numpy's results for the operator on the operands' underlying arrays *)
   Definition np_results (o:bop) (a b:arr) : res (list arr) :=
@@ -60,7 +61,7 @@ Section Spec.
   Fixpoint new_fields (rs:list arr) : res heap :=
     match rs with
     | [] => Ok []
-    | r :: t => do nf <- dtype_to_str r; do t' <- new_fields t; Ok (mkfield NumericMem nf r :: t')
+    | r :: t => do nf <- dtype_to_str r; do t' <- new_fields t; Ok (mkfield NumericMem nf (Some r) :: t')
     end.
 
   Definition ids_from (n:nat) (k:nat) : list (value arr) := map (fun i => VField (n + i)) (seq 0 k).
@@ -89,9 +90,9 @@ End Spec.
 
 Definition sym_spec_binop :=
   spec_binop sym symnf (fun f a b => Ok (SBin f a b)) (fun a b => Ok (SProj 0 a b, SProj 1 a b))
-             (fun a => Ok (NfOf a)).
+             (fun a => Ok (NfOf a)) sym_empty.
 Definition sym_spec_unop :=
-  spec_unop sym symnf (fun f a => Ok (SUn f a)) (fun a => Ok (NfOf a)).
+  spec_unop sym symnf (fun f a => Ok (SUn f a)) (fun a => Ok (NfOf a)) sym_empty.
 
 (* ---- what a well-formed operator layer looks like (decidable; `dispatch_table_correct` and the
         generated obligations evaluate it by computation) ------------------------------------- *)
